@@ -5,13 +5,22 @@
    with a non-zero UChar8 or Int32 value). *)
 From Coq Require Import List NArith ZArith Bool.
 Import ListNotations.
-Require Import Codec Frame Vocab Client ClientInv Session SessionProofs ConstantsAgree Constants.
+Require Import Codec Frame Vocab Rijndael Cipher SCipher Client ClientInv Session SessionProofs ConstantsAgree Constants.
 Local Open Scope N_scope.
 
 Theorem C09_gate : forall c conns calls,
   gate message (c_auth_req (s_user c) (s_pass c)) (trace_of c conns calls) /\
   forall j, first_ok message (c_auth_req (s_user c) (s_pass c)) j (trace_of c conns calls).
 Proof. exact SessionProofs.C09_gate. Qed.
+
+(* the same against EVERY transport/peer whatsoever (any environment state machine, any initial state, any log level) *)
+Theorem C09_gate_any : forall c (E : Type) (m : envsm E) calls e l,
+  let ks := Rijndael.key_schedule (Cipher.key_pad (s_key c)) in
+  let tr := out message E (snd (run message (c_encode (s_crc c)) c_decode_step (SCipher.s_enc ks) (SCipher.s_dec ks) Cipher.iv0 c_valid
+                                 (c_auth_req (s_user c) (s_pass c)) c_auth_ok (eff_to (s_conn_to c)) (eff_to (s_send_to c)) (eff_to (s_recv_to c))
+                                 (32 * N.to_nat (eff_rbuf (s_rbuf c)))%nat E m (init_state Cipher.iv0) (init_world message E e l) calls)) in
+  gate message (c_auth_req (s_user c) (s_pass c)) tr /\ forall j, first_ok message (c_auth_req (s_user c) (s_pass c)) j tr.
+Proof. intros c E m calls e l. apply ClientInv.C09_gate. Qed.
 
 (* the verdict is total: every conceivable reply either grants (a non-zero level) or does not; nothing else can happen *)
 Theorem C09_total : forall reply, c_auth_ok reply = true \/ c_auth_ok reply = false.
@@ -33,4 +42,4 @@ Example C09_nonvacuous :
   c_auth_ok [Msg 8388612 3 (GU8 10); Msg 8388609 3 (GU8 10)] = false /\ c_auth_ok [] = false.
 Proof. vm_compute. repeat split. Qed.
 
-Print Assumptions C09_gate. Print Assumptions C09_total. Print Assumptions C09_auth_request. Print Assumptions C09_constants.
+Print Assumptions C09_gate. Print Assumptions C09_gate_any. Print Assumptions C09_total. Print Assumptions C09_auth_request. Print Assumptions C09_constants.
